@@ -124,6 +124,22 @@ def check_malformed(text):
     return out
 
 
+def check_absent():
+    """Attribute absent: getLength falls back to the default, getLengthInches to None."""
+    plot_utils = _lib()
+    out = []
+    for absent in (None, ""):
+        try:
+            if plot_utils.getLength(stub(absent), "width", 321) != 321.0 or \
+                    plot_utils.getLengthInches(stub(absent), "width") is not None or \
+                    plot_utils.parseLengthWithUnits(None) != (None, None) or \
+                    plot_utils.userUnitToUnits(None, "mm") is not None:
+                out.append(f"absent attribute {absent!r} not handled as documented")
+        except Exception as exc:            # pylint: disable=broad-except
+            out.append(f"absent attribute {absent!r} raised {exc!r}")
+    return out
+
+
 def _chunk(args):
     prefixes, max_len = args
     part = core.Part()
@@ -176,20 +192,9 @@ def run(ctx):
         for clause, msg in check_malformed(text):
             part.violation(f"{clause}:bare:{text!r}", msg, {"kind": "malformed", "text": text})
         part.count("malformed_cases")
-    # attribute absent: getLength falls back to the default, getLengthInches to None
-    plot_utils = _lib()
-    for absent in (None, ""):
-        try:
-            if plot_utils.getLength(stub(absent), "width", 321) != 321.0 or \
-                    plot_utils.getLengthInches(stub(absent), "width") is not None or \
-                    plot_utils.parseLengthWithUnits(None) != (None, None) or \
-                    plot_utils.userUnitToUnits(None, "mm") is not None:
-                part.violation("absent", f"absent attribute {absent!r} not handled as documented",
-                               {"kind": "absent"})
-        except Exception as exc:            # pylint: disable=broad-except
-            part.violation("absent", f"absent attribute {absent!r} raised {exc!r}",
-                           {"kind": "absent"})
-        part.count("malformed_cases")
+    for msg in check_absent():
+        part.violation("absent", msg, {"kind": "absent"})
+    part.count("malformed_cases", 2)
     cnt = part.counters
     total = cnt.get("valid_cases", 0) + cnt.get("malformed_cases", 0)
     coverage = {
@@ -219,4 +224,4 @@ def replay(case):
         return [m for _c, m in check_valid(case["numeral"], case["unit"], case["space"])]
     if case["kind"] == "malformed":
         return [m for _c, m in check_malformed(case["text"])]
-    return []
+    return check_absent()
